@@ -13,6 +13,7 @@ import json
 import os
 import subprocess
 
+import time
 import z3
 
 REPO = os.environ.get('VERIF_REPO', '/repo')
@@ -21,6 +22,10 @@ CC_FILE = 'paranoid_crypto/lib/randomness_tests/cc_util/berlekamp_massey.cc'
 
 class Unsupported(Exception):
   pass
+
+
+class _Dead(Exception):
+  """Execution whose path condition turned out unsatisfiable."""
 
 
 class _Flow(Exception):
@@ -129,6 +134,9 @@ class V:
     return 'V(%r,%d,%s)' % (self.v, self.bits, 's' if self.signed else 'u')
 
 
+TRUE, FALSE = V(1, 1, False), V(0, 1, False)
+
+
 def _simp(t):
   t = z3.simplify(t)
   return t
@@ -209,6 +217,9 @@ def clmul64(x, y):
 
 # -- interpreter --------------------------------------------------------------
 
+BUDGET_S = 600  # per symbolic execution of one function
+BRK, CNT = '#break', '#continue'   # per-loop control-flow flags kept in env
+
 
 class Interp:
 
@@ -222,6 +233,7 @@ class Interp:
     self.trace = []
     self.pc = []
     self.pending = []
+    self.deadline = (time.time() + BUDGET_S) if BUDGET_S else 0
 
   def _feasible(self, extra):
     s = z3.Solver()
@@ -246,7 +258,9 @@ class Interp:
       elif f_ok:
         val = False
       else:
-        raise Unsupported('infeasible path')
+        # the path condition itself is unsatisfiable (an earlier fork was
+        # taken on a solver timeout): no input follows this execution
+        raise _Dead()
     self.trace.append(val)
     self.pc.append(cb if val else z3.Not(cb))
     return val
@@ -269,9 +283,10 @@ class Interp:
   def stmt(self, n, env):
     k = n['kind']
     self.kinds.add(k)
+    if self.deadline and time.time() > self.deadline:
+      raise Unsupported('time budget of the symbolic execution exhausted')
     if k == 'CompoundStmt':
-      for s in n.get('inner', []):
-        self.stmt(s, env)
+      self.block(n.get('inner', []), env)
     elif k == 'DeclStmt':
       for d in n['inner']:
         self.decl(d, env)
@@ -280,6 +295,12 @@ class Interp:
       if init and init.get('kind'):
         self.stmt(init, env)
       guard = 0
+      outer = (env.get(BRK, FALSE), env.get(CNT, FALSE))
+      env[BRK], env[CNT] = FALSE, FALSE
+      # (condition, state at the break) of iterations that leave the loop
+      # under a symbolic condition; the loop itself continues on the state in
+      # which the break was not taken, and the exits are merged afterwards
+      exits = []
       while True:
         c = self.rvalue(cond, env)
         if not c.concrete:
@@ -293,10 +314,30 @@ class Interp:
             break
           if f.kind != 'continue':
             raise
+        env[CNT] = FALSE
+        brk = env[BRK]
+        if brk.concrete:
+          if brk.v:
+            break
+        else:
+          snap = self.clone(env)
+          exits.append((brk.term() != 0, brk.sz, snap))
+          env[BRK] = FALSE
+          self.merges += 1
         self.expr(inc, env)
         guard += 1
         if guard > 200000:
           raise Unsupported('loop bound')
+      for cb, csz, snap in reversed(exits):
+        for key in list(env):
+          if key in (BRK, CNT):
+            continue
+          if key not in snap:
+            continue  # declared after the exit: dead in the exited state
+          x, y = snap[key], env[key]
+          if x is not y:
+            env[key] = ite(cb, x, y, csz)
+      env[BRK], env[CNT] = outer
     elif k == 'IfStmt':
       inner = n['inner']
       cond, then = inner[0], inner[1]
@@ -312,12 +353,12 @@ class Interp:
       env_t = self.clone(env)
       env_e = self.clone(env)
       try:
-        self.stmt(then, env_t)
+        self.branch(then, env_t)
         if els is not None:
-          self.stmt(els, env_e)
+          self.branch(els, env_e)
       except _Flow:
-        # control flow (continue / break / return) under a symbolic
-        # condition cannot be merged: fork the execution on this condition
+        # a return under a symbolic condition cannot be merged: fork the
+        # execution on this condition
         val = self.fork(cb)
         if val:
           self.stmt(then, env)
@@ -341,6 +382,49 @@ class Interp:
       pass
     else:
       self.expr(n, env)
+
+  def branch(self, n, env):
+    """A branch under a symbolic condition: break / continue become flags in
+    the branch's own state (merged with the other branch afterwards)."""
+    try:
+      self.stmt(n, env)
+    except _Flow as f:
+      if f.kind == 'break':
+        env[BRK] = TRUE
+      elif f.kind == 'continue':
+        env[CNT] = TRUE
+      else:
+        raise
+
+  def block(self, stmts, env):
+    for i, s in enumerate(stmts):
+      self.stmt(s, env)
+      b, c = env.get(BRK, FALSE), env.get(CNT, FALSE)
+      if b.concrete and c.concrete:
+        if b.v:
+          raise _Flow('break')
+        if c.v:
+          raise _Flow('continue')
+        continue
+      if i + 1 == len(stmts):
+        return
+      # the rest of the block runs only where neither flag is set
+      stop = z3.Or(b.term() != 0, c.term() != 0)
+      rest = self.clone(env)
+      rest[BRK], rest[CNT] = FALSE, FALSE
+      self.branch({'kind': 'CompoundStmt', 'inner': stmts[i + 1:]}, rest)
+      self.merges += 1
+      csz = b.sz + c.sz
+      for key in list(rest):
+        if key not in env:
+          continue  # declared in the remainder: out of scope afterwards
+        x, y = env[key], rest[key]
+        if key in (BRK, CNT):
+          y = ite(stop, x, y, csz)
+          env[key] = y
+        elif x is not y:
+          env[key] = ite(stop, x, y, csz)
+      return
 
   def clone(self, env):
     return {k: (v.copy() if isinstance(v, Vec) else v) for k, v in env.items()}
@@ -725,10 +809,18 @@ def lfsr_length_impl(words, n, clmul, _cache={}):
   stack = [[]]
   results = []
   first = None
+  dead = 0
   while stack:
     prefix = stack.pop()
     it = Interp(_cache[key], prefix)
-    res = it.call([Vec(list(words)), V(n, 32, True)])
+    try:
+      res = it.call([Vec(list(words)), V(n, 32, True)])
+    except _Dead:
+      stack.extend(it.pending)
+      dead += 1
+      if first is None:
+        first = it
+      continue
     results.append((it.pc, res))
     stack.extend(it.pending)
     if first is None:
@@ -738,7 +830,10 @@ def lfsr_length_impl(words, n, clmul, _cache={}):
       first.merges += it.merges
     if len(results) + len(stack) > Interp.MAX_FORKS:
       raise Unsupported('more than %d forked executions' % Interp.MAX_FORKS)
+  if not results:
+    raise Unsupported('every forked execution was infeasible')
   first.forks = len(results)
+  first.dead = dead
   if len(results) == 1:
     return results[0][1], first
   # combine the forked executions into one term
